@@ -199,6 +199,19 @@ PROPS = {
         "trust": ["harness/src/bin.rs encoder as the definition of 'laid out according to the documented format'"],
         "assumptions": ["v1 terms section shorter than 0x48504F00 bytes (else it is indistinguishable from the magic)"],
     },
+    "C09": {
+        "subs": [sub("C09", "run_C09", "spec_C09", W_IMPORTS + ["Run.C09"], 120, 1500)],
+        "run_modules": ["C09"],
+        "rule": "fact sets of 2-12 terms (thorough up to 30; obsolete / replaced terms in half of them, names with ': ' and non-ASCII text, "
+                "empty names) rendered as hp.obo (stanzas in random order, id/name anywhere in the stanza, extra tags with nested colons, "
+                "[Typedef] and [Instance] stanzas interleaved, header with and without data-version, a foreign data-version line first), "
+                "genes_to_phenotype.txt and phenotype_to_genes.txt (three header styles, trailing columns, shuffled and repeated rows), "
+                "phenotype.hpoa (comment lines anywhere, NOT rows incl. diseases that only have NOT rows, DECIPHER rows, trailing columns); "
+                "loaded with from_standard and from_standard_transitive from a scratch directory, and the same facts through the Builder API "
+                "(when no flags) and a v3 binary file; non-trivial = both roots and >= 4 terms",
+        "trust": ["file system access of the loaders (the model starts from file contents)", "str::lines / split / trim / parse modelled at byte level (Model/Text.v)"],
+        "assumptions": ["files rendered in the JAX formats: one blank line between stanzas, every stanza line `tag: value`, `is_a: HP:x ! label`, one header line in the gene files", "no Unicode white space at line ends (trim is modelled for ASCII white space)"],
+    },
     "C10": {
         "subs": [dict(sub("C10", "run_C10", "spec_C10", W_IMPORTS + ["Run.C02", "Run.C10"], 150, 1500), proj=proj_c10)],
         "run_modules": ["C10"],
